@@ -133,6 +133,39 @@ def run_mc_step(tag, instrs, pools, workdir, workers=8, timeout=1800):
     return cases, stats
 
 
+def run_tlc_model(mod, cfg_text, workdir, workers=8, timeout=1800, tag=None):
+    """Runs an MC module of spec/mc with the given cfg text. Returns (case dicts, stats)."""
+    ensure_links()
+    workdir = os.path.abspath(workdir)
+    os.makedirs(workdir, exist_ok=True)
+    tag = tag or mod
+    cfg = os.path.join(workdir, tag + ".cfg")
+    open(cfg, "w").write(cfg_text)
+    outp = os.path.join(workdir, tag + ".out")
+    t0 = time.time()
+    with open(outp, "w") as fo:
+        subprocess.run(["timeout", str(timeout), "tlc", "-workers", str(workers), "-config", cfg,
+                        "-metadir", os.path.join(workdir, "states_" + tag), "-cleanup", "-noGenerateSpecTE",
+                        mod + ".tla"], cwd=MC, stdout=fo, stderr=subprocess.STDOUT, env=tlc_env())
+    shutil.rmtree(os.path.join(workdir, "states_" + tag), ignore_errors=True)
+    cases, tail, ok = [], [], False
+    with open(outp) as f:
+        for line in f:
+            if line.startswith('"CASE '):
+                cases.append(json.loads(json.loads(line)[5:]))
+            else:
+                tail.append(line)
+                if "Model checking completed. No error has been found." in line:
+                    ok = True
+    text = "".join(tail)
+    m = TLC_STATS.search(text)
+    stats = dict(states=int(m.group(2)) if m else 0, transitions=int(m.group(1)) if m else 0,
+                 wall_s=round(time.time() - t0, 1), cases=len(cases), tag=tag)
+    if not ok:
+        stats["error"] = text[-3000:]
+    return cases, stats
+
+
 def get_base():
     """The sentinel state of MC_Step, printed by TLC once and cached by content hash of the module."""
     ensure_links()
